@@ -89,3 +89,66 @@ def rename_locals(sources, suffix='_r', only=None):
             rename(fn, names)
         out[mod] = ast.unparse(tree)
     return out
+
+
+def invert_ifs(sources, only=None):
+    """every ``if c: A else: B`` becomes ``if not c: B else: A`` (statements only; elif chains are
+    nested ifs in the else branch and are inverted level by level)"""
+    out = {}
+
+    class T(ast.NodeTransformer):
+        def visit_If(self, node):
+            self.generic_visit(node)
+            if node.orelse:
+                t = node.test
+                if isinstance(t, ast.UnaryOp) and isinstance(t.op, ast.Not):
+                    nt = t.operand
+                else:
+                    nt = ast.UnaryOp(op=ast.Not(), operand=t)
+                return ast.copy_location(ast.If(test=nt, body=node.orelse, orelse=node.body), node)
+            return node
+    for mod, text in sources.items():
+        if only is not None and mod not in only:
+            out[mod] = text
+            continue
+        tree = T().visit(ast.parse(text))
+        ast.fix_missing_locations(tree)
+        out[mod] = ast.unparse(tree)
+    return out
+
+
+def guard_clauses(sources, only=None):
+    """``if c: <body>`` as the LAST statement of a loop body becomes ``if not c: continue`` + body;
+    as the last statement of a function body ``if not c: return`` + body (no else branch)"""
+    out = {}
+
+    def rewrite(body, exit_stmt):
+        if body and isinstance(body[-1], ast.If) and not body[-1].orelse and len(body[-1].body) > 1:
+            i = body[-1]
+            t = i.test
+            nt = t.operand if isinstance(t, ast.UnaryOp) and isinstance(t.op, ast.Not) else \
+                ast.UnaryOp(op=ast.Not(), operand=t)
+            guard = ast.copy_location(ast.If(test=nt, body=[exit_stmt()], orelse=[]), i)
+            return body[:-1] + [guard] + i.body
+        return body
+
+    class T(ast.NodeTransformer):
+        def visit_For(self, node):
+            self.generic_visit(node)
+            node.body = rewrite(node.body, ast.Continue)
+            return node
+        visit_While = visit_For
+
+        def visit_FunctionDef(self, node):
+            self.generic_visit(node)
+            if not any(isinstance(n, (ast.Yield, ast.YieldFrom)) for n in ast.walk(node)):
+                node.body = rewrite(node.body, lambda: ast.Return(value=None))
+            return node
+    for mod, text in sources.items():
+        if only is not None and mod not in only:
+            out[mod] = text
+            continue
+        tree = T().visit(ast.parse(text))
+        ast.fix_missing_locations(tree)
+        out[mod] = ast.unparse(tree)
+    return out
